@@ -89,6 +89,7 @@ def alts (xs : List String) : String :=
 def encExpect : Rfc.Expect → String
   | .any => "-"
   | .notErr => "!rterr"
+  | .notLayer => "!obj"
   | .rterr => "rterr"
   | .num ns => alts (ns.map fun n => s!"ok i:{n}")
   | .flag b => if b then "ok t" else "ok f"
